@@ -19,7 +19,10 @@ namespace Sml.C02
 
 open Spec (frame)
 
-/-- the bytes pushed since the latest `finalize` / `reset` operation (or since the beginning) -/
+/-- the bytes pushed since the latest `finalize` / `reset` operation, since the latest
+replacement of the decoder by `Decoder::new()` / `Decoder::from_buf(buf)` (`Op.new`,
+`Op.fromBuf stale`), or since the beginning.  The stale contents of a buffer handed to `from_buf`
+are not part of it. -/
 def consumed (ops : List Op) : List UInt8 :=
   ops.foldl (fun acc op => match op with | .push b => acc ++ [b] | _ => []) []
 
@@ -27,9 +30,10 @@ theorem consumed_eq (ops : List Op) : consumed ops = ops.foldl Dec.consStep [] :
   unfold consumed
   congr 1
 
-/-- Histories of `push_byte` / `finalize` / `reset` on a decoder of any capacity: if the `i`-th
-operation reports the payload `m`, the bytes pushed since the latest `finalize` / `reset` end with
-exactly `frame m`. -/
+/-- Histories of `push_byte` / `finalize` / `reset` / `new` / `from_buf` on a decoder of any
+capacity: if the `i`-th operation reports the payload `m`, the bytes pushed since the latest
+`finalize` / `reset` / `new` / `from_buf` end with exactly `frame m`.  (So neither bytes given to
+a dropped decoder nor stale buffer contents ever contribute to a payload.) -/
 theorem sound (cap : Option Nat) (ops : List Op) (i : Nat) (m : List UInt8)
     (h : (Dec.run (Dec.fresh cap) ops).2[i]? = some (OpOut.out (Out.msg m))) :
     ∃ pre, consumed (ops.take (i + 1)) = pre ++ frame m := by
@@ -68,7 +72,8 @@ theorem evBytes_eq (evs : List Ev) : evBytes evs = Rdr.evBytes evs := by
     cases e <;> simp [Rdr.evBytes, ih]
 
 /-- `DecoderReader` over any byte source (slice / iterator, `std::io::Read`, embedded-hal) with
-arbitrary faults (`WouldBlock`, `Interrupted`, other errors, end of input) and any sequence of
+arbitrary faults (`WouldBlock`, `Interrupted`, other errors, end of input — final or mid-stream,
+`Ev.eof`, after which the source delivers more) and any sequence of
 `read` / `next` / `read_nb` / `next_nb` calls: every returned payload comes from a canonical frame
 that occurs as a contiguous block in the bytes the source delivered. -/
 theorem sound_reader (kind : SrcKind) (cap : Option Nat) (evs : List Ev) (cs : List Rdr.Call)
@@ -94,6 +99,18 @@ example :
         0x00, 0x1b]).length - 1]? = some (Out.msg [0x1b, 0x1b, 0x1b, 0x1b, 0x1b, 0x00, 0x1b]) := by
   decide +kernel
 
+/-- a history with a `from_buf` whose buffer holds stale bytes, in the middle of a frame: the
+payload reported later is that of the frame pushed after it -/
+example :
+    (Dec.run (Dec.fresh (some 4))
+      (((frame [0xaa, 0xbb]).take 10).map Op.push ++ [Op.fromBuf [1, 2, 3, 4]] ++
+        (frame [0x12, 0x34, 0x56, 0x78]).map Op.push)).2[30]? =
+      some (OpOut.out (Out.msg [0x12, 0x34, 0x56, 0x78])) := by
+  decide +kernel
+
+example : consumed ([Op.push 1, Op.push 2, Op.fromBuf [7, 7], Op.push 3, Op.new, Op.push 4,
+    Op.push 5]) = [4, 5] := by decide
+
 example : (Item.ok [0x12, 0x34, 0x56, 0x78]) ∈
     decodeAll ([0xaa] ++ frame [0x12, 0x34, 0x56, 0x78] ++ [0xbb]) := by
   decide +kernel
@@ -111,6 +128,14 @@ example :
         [.read, .read, .read, .next]).2 =
       [RItem.ioErr .wouldBlock 0, RItem.decErr (.discarded 1), RItem.ok [0x12, 0x34],
         RItem.ioErr .other 0] := by
+  decide +kernel
+
+/-- a mid-stream end of input between noise and a frame, and one after it -/
+example :
+    ((Rdr.new .io none
+      ([Ev.byte 0xaa, Ev.eof] ++ (frame [0x12, 0x34]).map Ev.byte ++ [Ev.eof, Ev.byte 0xbb])).calls
+        [.next, .next, .next, .read, .next]).2 =
+      [RItem.ioErr .eof 1, RItem.ok [0x12, 0x34], RItem.none, RItem.ioErr .eof 1, RItem.none] := by
   decide +kernel
 
 end Sml.C02
